@@ -5,7 +5,13 @@ lookup); theorems: Props/C05.lean. Every generated PSBT is opened through PSBTVi
 compression modes; everything the view reports (version, counts, first-scope offset, scope offsets, locktime, tx version,
 vin/vout, every input/output scope) is compared with the Lean model (`view.all`) and — independently of the model — with
 the fully parsed in-memory PSBT. The write path (original + signature stream under each mode) is compared with
-sign-then-compress in memory."""
+sign-then-compress in memory.
+
+Props/C05Y.lean proves `View.writeToL` (write_to with lists of extra streams) = original global scope ++ scopes of the
+PSBT merged and compressed in memory (`Psbt.mergeExtra`). Both sides of that theorem are tied to embit on every run:
+`view.writel` (0-3 extra streams of each kind, all reader / writer modes) against PSBTView.write_to, `psbt.merge`
+against parse + update + clear_metadata + serialize in memory, and the byte-level predicate itself is evaluated on
+embit independently of the model."""
 import io
 import json
 
@@ -18,7 +24,7 @@ from embit.psbt import PSBT
 from embit.psbtview import PSBTView
 
 PROP = "C05"
-MODS = ["EmbitModel.Props.C05", "EmbitModel.Props.C05X"]
+MODS = ["EmbitModel.Props.C05", "EmbitModel.Props.C05X", "EmbitModel.Props.C05Y"]
 
 
 def txin_tokens(i):
@@ -223,6 +229,83 @@ def check_write(c, g):
                        dict(info, op="view.write", written=None if w is None else hx(w)[:20000]))
 
 
+def check_write_multi(c, g):
+    """write_to with LISTS of extra streams: model (`view.writel`), in-memory procedure (`psbt.merge`) and the
+    byte-level statement of Props/C05Y evaluated on embit itself"""
+    from embit.psbt import InputScope, OutputScope
+    b = g["bytes"]
+    rng = c.rng
+    ni = rng.choice([0, 1, 2, 2, 3])
+    no = rng.choice([0, 0, 1, 2])
+    eis = [gen_extra(rng, g)[0] for _ in range(ni)]
+    eos = [gen_extra(rng, g)[1] for _ in range(no)]
+    if ni and rng.random() < 0.15:
+        # a stream that runs short / is malformed: both paths must refuse
+        k = rng.randrange(ni)
+        eis[k] = rng.choice([eis[k][:-1], b"", eis[k][: len(eis[k]) // 2], b"\x01\x02"])
+    pre = gen.rbytes(rng, rng.choice([0, 3, 40]))
+    post = gen.rbytes(rng, rng.choice([0, 0, 2]))
+    buf = pre + b + post
+    off = len(pre)
+    cm = rng.choice([0, 1, 2])
+    vc = rng.choice([0, 0, cm, 1, 2])
+    parses = attempt(lambda: PSBT.parse(b, compress=vc)) is not None
+
+    def do_write():
+        s = io.BytesIO(buf)
+        s.seek(off)
+        v = PSBTView.view(s, compress=vc)
+        out = io.BytesIO()
+        v.write_to(out, compress=cm, extra_input_streams=[io.BytesIO(e) for e in eis],
+                   extra_output_streams=[io.BytesIO(e) for e in eos])
+        return out.getvalue(), v.first_scope - off
+
+    r = attempt(do_write)
+    w, glen = r if r is not None else (None, None)
+    c.count(("writel", cm, vc, b, tuple(eis), tuple(eos)), nontrivial=True)
+    c.tally("writel:in%d:out%d:%s" % (ni, no, "ok" if w is not None else "none"))
+    info = {"kind": "writel", "compress": cm, "view_mode": vc, "offset": off, "bytes": hx(b)[:20000],
+            "extra_in": [hx(e) for e in eis], "extra_out": [hx(e) for e in eos]}
+    lst = lambda es: " ".join([str(len(es))] + [hx(e) for e in es])
+    c.expect("view.writel %d %d %d %s %s %s" % (off, vc, cm, lst(eis), lst(eos), hx(buf)),
+             "none" if w is None else "ok " + hx(w), info, proven=parses)
+
+    def in_memory():
+        p = PSBT.parse(b, compress=vc)
+        sis = [io.BytesIO(e) for e in eis]
+        sos = [io.BytesIO(e) for e in eos]
+        for inp in p.inputs:
+            for s in sis:
+                inp.update(InputScope.read_from(s))
+            if cm:
+                inp.clear_metadata(compress=cm)
+        for o in p.outputs:
+            for s in sos:
+                o.update(OutputScope.read_from(s))
+            if cm:
+                o.clear_metadata(compress=cm)
+        return p.serialize()
+
+    m = attempt(in_memory)
+    c.expect("psbt.merge %d %d %s %s %s" % (vc, cm, lst(eis), lst(eos), hx(b)),
+             "none" if m is None else "ok " + hx(m), dict(info, kind="merge"), proven=False)
+    # the statement of Props/C05Y on embit itself: refusal together; original global bytes, then the in-memory scopes
+    if (w is None) != (m is None):
+        c.fail("PSBTView.write_to and merge-in-memory do not refuse together (mode %d)" % cm,
+               dict(info, op="view.writel", view=w is not None, memory=m is not None))
+    elif w is not None:
+        mg = attempt(lambda: PSBTView.view(io.BytesIO(m)).first_scope)
+        if w[:glen] != b[:glen] or mg is None or w[glen:] != m[mg:]:
+            c.fail("PSBTView.write_to output is not (original global scope ++ scopes merged in memory) (mode %d)" % cm,
+                   dict(info, op="view.writel", written=hx(w)[:20000], memory=hx(m)[:20000]))
+        # parse level (Props/C05Y (2)): what was written parses to the in-memory result; the model parser agrees
+        rp = attempt(lambda: PSBT.parse(w).serialize())
+        if rp != m:
+            c.fail("PSBT.parse(what PSBTView.write_to wrote) is not the PSBT merged in memory (mode %d)" % cm,
+                   dict(info, op="view.writel.parse", written=hx(w)[:20000], memory=hx(m)[:20000]))
+        c.expect("psbt.roundtrip 0 %s" % hx(w), "none" if rp is None else "ok " + hx(rp), dict(info, kind="reparse"), proven=False)
+
+
 def check_bytes(c, kind, b, valid):
     pre = gen.rbytes(c.rng, c.rng.choice([0, 0, 1, 5, 64, 300]))
     post = gen.rbytes(c.rng, c.rng.choice([0, 0, 3]))
@@ -244,6 +327,11 @@ def explore(c, n, big):
         c.tally("psbt:v%d/in%d/out%d" % (g["version"], min(len(g["tx"].vin), 5), min(len(g["tx"].vout), 5)))
         check_bytes(c, "valid", g["bytes"], True)
         check_write(c, g)
+        large = len(g["tx"].vin) + len(g["tx"].vout) > 50   # the model walks scopes from the start: quadratic
+        if not large or c.rng.random() < 0.3:
+            check_write_multi(c, g)
+        if not large and c.rng.random() < 0.5:
+            check_write_multi(c, g)
         for kind, cb, must in gen_psbt.corruptions(c.rng, g):
             if c.rng.random() < 0.4:
                 check_bytes(c, kind, cb, False)
